@@ -1,10 +1,335 @@
-/- Props/C19.lean — placeholder while the proofs are being written. -/
+/-
+Props/C19.lean — property C19: layout regions rotate and extract consistently with the arrays they
+index.  All theorems quantify over every array shape, every array content (element type `α`
+arbitrary), every valid region inside the array, all four read-out corners, every extraction window
+and every pixel range (unbounded integers).  They are stated about the `Impl` layer of
+Model/Layout.lean (the transliteration of autoarray/layout/{layout_util,region}.py), which is what
+the driver executes against the Python.
+
+A 2-D array is its list of rows; "shape h×w" = `a.length = h` and every row has length `w`.
+`Spec.R2.Inside r h w` = `0 ≤ y0 < y1 ≤ h ∧ 0 ≤ x0 < x1 ≤ w`.
+-/
 import Model.Layout
+import Proofs.Layout
 
 open Model
 
 namespace C19
 
-theorem placeholder : (1 : Nat) = 1 := rfl
+/-! ### clause (a): rotation of region and array commute; rotating twice restores both -/
+
+/-- (a1) for each of the four corners, a valid region inside the array is accepted by
+    `rotate_region_via_roe_corner_from`, the rotated region is again a valid region inside the
+    array, and it slices from the rotated array exactly the rotated content of the original region
+    (the same flips, restricted to the window). -/
+theorem rotate_commutes_with_slice (c : Corner) (a : List (List α)) (h w : Nat) (r : R2)
+    (ha : a.length = h) (hrows : ∀ row ∈ a, row.length = w) (hr : Spec.R2.Inside r h w) :
+    ∃ r', Impl.rotateRegion r h w c = some r' ∧ Spec.R2.Inside r' h w
+      ∧ Impl.slice2d r' (Impl.rotateArray c a) = Impl.rotateArray c (Impl.slice2d r a) := by
+  refine ⟨reflect r h w c, rotateRegion_of_inside hr c, reflect_inside hr c, ?_⟩
+  unfold Spec.R2.Inside at hr
+  obtain ⟨h0, h1, h2, h3, h4, h5⟩ := hr
+  simp only [slice2d_eq_sliceN]
+  have ey0 : ((h : Int) - r.y1).toNat = a.length - r.y1.toNat := by omega
+  have ey1 : ((h : Int) - r.y0).toNat = a.length - r.y0.toNat := by omega
+  have ex0 : ((w : Int) - r.x1).toNat = w - r.x1.toNat := by omega
+  have ex1 : ((w : Int) - r.x0).toNat = w - r.x0.toNat := by omega
+  have hy : r.y0.toNat ≤ r.y1.toNat := by omega
+  have hy' : r.y1.toNat ≤ a.length := by omega
+  have hx : r.x0.toNat ≤ r.x1.toNat := by omega
+  have hx' : r.x1.toNat ≤ w := by omega
+  cases c
+  · rfl
+  · simp only [reflect, Impl.rotateArray, ey0, ey1]
+    exact sliceN_reverse_rows a _ _ _ _ hy hy'
+  · simp only [reflect, Impl.rotateArray, ex0, ex1]
+    exact sliceN_reverse_cols a w _ _ _ _ hrows hx hx'
+  · simp only [reflect, Impl.rotateArray, ey0, ey1, ex0, ex1]
+    have hrows' : ∀ row ∈ a.reverse, row.length = w := fun row hrow =>
+      hrows row (List.mem_reverse.mp hrow)
+    rw [sliceN_reverse_cols a.reverse w _ _ _ _ hrows' hx hx']
+    have := sliceN_reverse_rows a r.y0.toNat r.y1.toNat r.x0.toNat r.x1.toNat hy hy'
+    rw [this]
+
+/-- (a2) applying the same rotation twice restores the array (any array, any corner). -/
+theorem rotateArray_twice (c : Corner) (a : List (List α)) :
+    Impl.rotateArray c (Impl.rotateArray c a) = a :=
+  Model.rotateArray_twice c a
+
+/-- (a3) applying the same rotation twice restores the region. -/
+theorem rotateRegion_twice (c : Corner) (h w : Nat) (r : R2) (hr : Spec.R2.Inside r h w) :
+    (Impl.rotateRegion r h w c).bind (fun r' => Impl.rotateRegion r' h w c) = some r := by
+  rw [rotateRegion_of_inside hr c, Option.bind_some,
+    rotateRegion_of_inside (reflect_inside hr c) c, reflect_reflect]
+
+/-- (a4) the rotated region is given by reflecting the corners the corner's flips reverse. -/
+theorem rotateRegion_inside (c : Corner) (h w : Nat) (r : R2) (hr : Spec.R2.Inside r h w) :
+    Impl.rotateRegion r h w c = some
+      (match c with
+       | .c10 => r
+       | .c00 => ⟨(h : Int) - r.y1, (h : Int) - r.y0, r.x0, r.x1⟩
+       | .c11 => ⟨r.y0, r.y1, (w : Int) - r.x1, (w : Int) - r.x0⟩
+       | .c01 => ⟨(h : Int) - r.y1, (h : Int) - r.y0, (w : Int) - r.x1, (w : Int) - r.x0⟩) := by
+  rw [rotateRegion_of_inside hr c]; cases c <;> rfl
+
+/-! ### clause (b): the region after extraction is the overlap, in window coordinates -/
+
+/-- (b1) 1-D: for non-empty intervals, `x0x1_after_extraction` returns the overlap of the original
+    interval with the window, in window coordinates, and `(None, None)` exactly when the overlap is
+    empty (the `UnboundLocalError` path included). -/
+theorem x0x1_after_extraction_eq_overlap (x0o x1o x0e x1e : Int) (ho : x0o < x1o) (he : x0e < x1e) :
+    Impl.x0x1AfterExtraction x0o x1o x0e x1e
+      = if max x0o x0e < min x1o x1e then some (max x0o x0e - x0e, min x1o x1e - x0e) else none :=
+  x0x1_eq_overlap x0o x1o x0e x1e ho he
+
+/-- (b2) 2-D: for a valid region and a valid window, `region_after_extraction` never raises; it
+    returns the overlap expressed in window coordinates when region and window overlap on both
+    axes, and is absent (`None`) otherwise. -/
+theorem region_after_extraction_eq_overlap (o e : R2) (ho : Spec.R2.Valid o) (he : Spec.R2.Valid e) :
+    Impl.regionAfterExtraction o e =
+      if max o.y0 e.y0 < min o.y1 e.y1 ∧ max o.x0 e.x0 < min o.x1 e.x1 then
+        .value ⟨max o.y0 e.y0 - e.y0, min o.y1 e.y1 - e.y0, max o.x0 e.x0 - e.x0, min o.x1 e.x1 - e.x0⟩
+      else .absent := by
+  unfold Spec.R2.Valid at ho he
+  unfold Impl.regionAfterExtraction
+  rw [x0x1_eq_overlap _ _ _ _ ho.2.1 he.2.1, x0x1_eq_overlap _ _ _ _ ho.2.2.2 he.2.2.2]
+  unfold Spec.overlap1d
+  simp only
+  by_cases hy : max o.y0 e.y0 < min o.y1 e.y1 <;> by_cases hx : max o.x0 e.x0 < min o.x1 e.x1 <;>
+    simp only [hy, hx, if_true, if_false, and_self, and_false, false_and]
+  rw [region2dNew_eq_some (by dsimp only; omega)]
+
+/-- (b3) the returned region addresses, inside the extracted window, exactly the overlap of the
+    original region with the window: slicing the window's content by the new region gives the
+    content of the overlap in the original array (any array). -/
+theorem extraction_addresses_overlap (a : List (List α)) (o e r : R2)
+    (ho : Spec.R2.Valid o) (he : Spec.R2.Valid e)
+    (hres : Impl.regionAfterExtraction o e = .value r) :
+    Impl.slice2d r (Impl.slice2d e a) = Impl.slice2d (Spec.overlapRegion o e) a := by
+  rw [region_after_extraction_eq_overlap o e ho he] at hres
+  unfold Spec.R2.Valid at ho he
+  split at hres
+  · rename_i hov
+    injection hres with hres
+    subst hres
+    simp only [slice2d_eq_sliceN, Spec.overlapRegion, sliceN_sliceN]
+    congr 1 <;> omega
+  · exact absurd hres (by simp)
+
+/-- (b4) absent iff region and window do not overlap. -/
+theorem region_after_extraction_absent_iff (o e : R2) (ho : Spec.R2.Valid o) (he : Spec.R2.Valid e) :
+    Impl.regionAfterExtraction o e = .absent
+      ↔ ¬(max o.y0 e.y0 < min o.y1 e.y1 ∧ max o.x0 e.x0 < min o.x1 e.x1) := by
+  rw [region_after_extraction_eq_overlap o e ho he]
+  split <;> simp_all
+
+/-! ### clause (c): front / trailing sub-regions and constructor validation -/
+
+/-- (c0) constructors: a `Region2D` / `Region1D` is rejected exactly when a coordinate is negative
+    or an extent is empty (or reversed); accepted regions are returned unchanged. -/
+theorem region2d_rejects_iff_invalid (r : R2) :
+    (Impl.region2dNew r = none ↔ (r.y0 < 0 ∨ r.y1 < 0 ∨ r.x0 < 0 ∨ r.x1 < 0 ∨ r.y1 ≤ r.y0 ∨ r.x1 ≤ r.x0))
+    ∧ (∀ r', Impl.region2dNew r = some r' → r' = r) := by
+  constructor
+  · by_cases h : 0 ≤ r.y0 ∧ r.y0 < r.y1 ∧ 0 ≤ r.x0 ∧ r.x0 < r.x1
+    · rw [region2dNew_eq_some h]; simp; omega
+    · rw [region2dNew_eq_none h]; simp; omega
+  · intro r' h'
+    by_cases h : 0 ≤ r.y0 ∧ r.y0 < r.y1 ∧ 0 ≤ r.x0 ∧ r.x0 < r.x1
+    · rw [region2dNew_eq_some h] at h'; exact (Option.some.inj h').symm
+    · rw [region2dNew_eq_none h] at h'; exact absurd h' (by simp)
+
+theorem region1d_rejects_iff_invalid (r : R1) :
+    (Impl.region1dNew r = none ↔ (r.x0 < 0 ∨ r.x1 < 0 ∨ r.x1 ≤ r.x0))
+    ∧ (∀ r', Impl.region1dNew r = some r' → r' = r) := by
+  constructor
+  · by_cases h : 0 ≤ r.x0 ∧ r.x0 < r.x1
+    · rw [region1dNew_eq_some h]; simp; omega
+    · rw [region1dNew_eq_none h]; simp; omega
+  · intro r' h'
+    by_cases h : 0 ≤ r.x0 ∧ r.x0 < r.x1
+    · rw [region1dNew_eq_some h] at h'; exact (Option.some.inj h').symm
+    · rw [region1dNew_eq_none h] at h'; exact absurd h' (by simp)
+
+/-- (c1) parallel front region of a valid parent for pixel range `[a, b)`: accepted iff the range is
+    non-empty and does not start before row 0 of the array; its rows are exactly the rows
+    `y0 + k`, `a ≤ k < b`, counted from the parent's front edge `y0`; its columns are the parent's. -/
+theorem parallel_front_rows (r : R2) (hr : Spec.R2.Valid r) (a b : Int) :
+    (Impl.parallelFront r (a, b) = none ↔ (r.y0 + a < 0 ∨ b ≤ a))
+    ∧ (∀ r', Impl.parallelFront r (a, b) = some r' →
+        (∀ i : Int, (r'.y0 ≤ i ∧ i < r'.y1) ↔ ∃ k, a ≤ k ∧ k < b ∧ i = r.y0 + k)
+        ∧ r'.x0 = r.x0 ∧ r'.x1 = r.x1) := by
+  unfold Spec.R2.Valid at hr
+  unfold Impl.parallelFront
+  by_cases h : 0 ≤ r.y0 + a ∧ a < b
+  · rw [region2dNew_eq_some (by dsimp only; omega)]
+    refine ⟨by simp; omega, ?_⟩
+    intro r' h'
+    injection h' with h'; subst h'
+    refine ⟨fun i => ⟨fun hi => ⟨i - r.y0, ?_, ?_, ?_⟩, fun ⟨k, h1, h2, h3⟩ => ?_⟩, rfl, rfl⟩ <;>
+      dsimp only at * <;> omega
+  · rw [region2dNew_eq_none (by dsimp only; omega)]
+    exact ⟨by simp; omega, by simp⟩
+
+/-- (c2) `pixels_from_end = k` selects exactly the last `k` rows of the parent: rows `y1 − k … y1 − 1`. -/
+theorem parallel_front_from_end_rows (r : R2) (hr : Spec.R2.Valid r) (k : Int) (px : Option (Int × Int)) :
+    ∃ p, Impl.frontPixels r.totalRows px (some k) = some p
+      ∧ (Impl.parallelFront r p = none ↔ (r.y1 - k < 0 ∨ k ≤ 0))
+      ∧ (∀ r', Impl.parallelFront r p = some r' →
+          r'.y0 = r.y1 - k ∧ r'.y1 = r.y1 ∧ r'.x0 = r.x0 ∧ r'.x1 = r.x1) := by
+  unfold Spec.R2.Valid at hr
+  refine ⟨(r.totalRows - k, r.totalRows), rfl, ?_⟩
+  unfold Impl.parallelFront R2.totalRows
+  by_cases h : 0 ≤ r.y1 - k ∧ 0 < k
+  · rw [region2dNew_eq_some (by dsimp only; omega)]
+    refine ⟨by simp; omega, ?_⟩
+    intro r' h'
+    injection h' with h'; subst h'
+    dsimp only
+    omega
+  · rw [region2dNew_eq_none (by dsimp only; omega)]
+    exact ⟨by simp; omega, by simp⟩
+
+/-- (c3) parallel trailing region: rows `y1 + k`, `a ≤ k < b`, counted from the parent's trailing
+    edge `y1`. -/
+theorem parallel_trailing_rows (r : R2) (hr : Spec.R2.Valid r) (a b : Int) :
+    (Impl.parallelTrailing r (a, b) = none ↔ (r.y1 + a < 0 ∨ b ≤ a))
+    ∧ (∀ r', Impl.parallelTrailing r (a, b) = some r' →
+        (∀ i : Int, (r'.y0 ≤ i ∧ i < r'.y1) ↔ ∃ k, a ≤ k ∧ k < b ∧ i = r.y1 + k)
+        ∧ r'.x0 = r.x0 ∧ r'.x1 = r.x1) := by
+  unfold Spec.R2.Valid at hr
+  unfold Impl.parallelTrailing
+  by_cases h : 0 ≤ r.y1 + a ∧ a < b
+  · rw [region2dNew_eq_some (by dsimp only; omega)]
+    refine ⟨by simp; omega, ?_⟩
+    intro r' h'
+    injection h' with h'; subst h'
+    refine ⟨fun i => ⟨fun hi => ⟨i - r.y1, ?_, ?_, ?_⟩, fun ⟨k, h1, h2, h3⟩ => ?_⟩, rfl, rfl⟩ <;>
+      dsimp only at * <;> omega
+  · rw [region2dNew_eq_none (by dsimp only; omega)]
+    exact ⟨by simp; omega, by simp⟩
+
+/-- (c4) serial front region: columns `x0 + k`, `a ≤ k < b`, counted from the parent's front edge
+    `x0`; rows are the parent's. -/
+theorem serial_front_columns (r : R2) (hr : Spec.R2.Valid r) (a b : Int) :
+    (Impl.serialFront r (a, b) = none ↔ (r.x0 + a < 0 ∨ b ≤ a))
+    ∧ (∀ r', Impl.serialFront r (a, b) = some r' →
+        (∀ j : Int, (r'.x0 ≤ j ∧ j < r'.x1) ↔ ∃ k, a ≤ k ∧ k < b ∧ j = r.x0 + k)
+        ∧ r'.y0 = r.y0 ∧ r'.y1 = r.y1) := by
+  unfold Spec.R2.Valid at hr
+  unfold Impl.serialFront Impl.serialXFrontRange
+  by_cases h : 0 ≤ r.x0 + a ∧ a < b
+  · rw [region2dNew_eq_some (by dsimp only; omega)]
+    refine ⟨by simp; omega, ?_⟩
+    intro r' h'
+    injection h' with h'; subst h'
+    refine ⟨fun i => ⟨fun hi => ⟨i - r.x0, ?_, ?_, ?_⟩, fun ⟨k, h1, h2, h3⟩ => ?_⟩, rfl, rfl⟩ <;>
+      dsimp only at * <;> omega
+  · rw [region2dNew_eq_none (by dsimp only; omega)]
+    exact ⟨by simp; omega, by simp⟩
+
+/-- (c5) serial `pixels_from_end = k`: exactly the last `k` columns of the parent. -/
+theorem serial_front_from_end_columns (r : R2) (hr : Spec.R2.Valid r) (k : Int)
+    (px : Option (Int × Int)) :
+    ∃ p, Impl.frontPixels r.totalColumns px (some k) = some p
+      ∧ (Impl.serialFront r p = none ↔ (r.x1 - k < 0 ∨ k ≤ 0))
+      ∧ (∀ r', Impl.serialFront r p = some r' →
+          r'.x0 = r.x1 - k ∧ r'.x1 = r.x1 ∧ r'.y0 = r.y0 ∧ r'.y1 = r.y1) := by
+  unfold Spec.R2.Valid at hr
+  refine ⟨(r.totalColumns - k, r.totalColumns), rfl, ?_⟩
+  unfold Impl.serialFront Impl.serialXFrontRange R2.totalColumns
+  by_cases h : 0 ≤ r.x1 - k ∧ 0 < k
+  · rw [region2dNew_eq_some (by dsimp only; omega)]
+    refine ⟨by simp; omega, ?_⟩
+    intro r' h'
+    injection h' with h'; subst h'
+    dsimp only
+    omega
+  · rw [region2dNew_eq_none (by dsimp only; omega)]
+    exact ⟨by simp; omega, by simp⟩
+
+/-- (c6) serial trailing region: columns `x1 + k`, `a ≤ k < b`, counted from the trailing edge `x1`. -/
+theorem serial_trailing_columns (r : R2) (hr : Spec.R2.Valid r) (a b : Int) :
+    (Impl.serialTrailing r (a, b) = none ↔ (r.x1 + a < 0 ∨ b ≤ a))
+    ∧ (∀ r', Impl.serialTrailing r (a, b) = some r' →
+        (∀ j : Int, (r'.x0 ≤ j ∧ j < r'.x1) ↔ ∃ k, a ≤ k ∧ k < b ∧ j = r.x1 + k)
+        ∧ r'.y0 = r.y0 ∧ r'.y1 = r.y1) := by
+  unfold Spec.R2.Valid at hr
+  unfold Impl.serialTrailing
+  by_cases h : 0 ≤ r.x1 + a ∧ a < b
+  · rw [region2dNew_eq_some (by dsimp only; omega)]
+    refine ⟨by simp; omega, ?_⟩
+    intro r' h'
+    injection h' with h'; subst h'
+    refine ⟨fun i => ⟨fun hi => ⟨i - r.x1, ?_, ?_, ?_⟩, fun ⟨k, h1, h2, h3⟩ => ?_⟩, rfl, rfl⟩ <;>
+      dsimp only at * <;> omega
+  · rw [region2dNew_eq_none (by dsimp only; omega)]
+    exact ⟨by simp; omega, by simp⟩
+
+/-- (c7) 1-D front region (and `pixels_from_end`): pixels `x0 + k`, `a ≤ k < b`. -/
+theorem front1d_pixels (r : R1) (a b : Int) :
+    (Impl.front1d r (a, b) = none ↔ (r.x0 + a < 0 ∨ b ≤ a))
+    ∧ (∀ r', Impl.front1d r (a, b) = some r' →
+        ∀ j : Int, (r'.x0 ≤ j ∧ j < r'.x1) ↔ ∃ k, a ≤ k ∧ k < b ∧ j = r.x0 + k) := by
+  unfold Impl.front1d
+  by_cases h : 0 ≤ r.x0 + a ∧ a < b
+  · rw [region1dNew_eq_some (by dsimp only; omega)]
+    refine ⟨by simp; omega, ?_⟩
+    intro r' h'
+    injection h' with h'; subst h'
+    refine fun i => ⟨fun hi => ⟨i - r.x0, ?_, ?_, ?_⟩, fun ⟨k, h1, h2, h3⟩ => ?_⟩ <;>
+      dsimp only at * <;> omega
+  · rw [region1dNew_eq_none (by dsimp only; omega)]
+    exact ⟨by simp; omega, by simp⟩
+
+theorem front1d_from_end_pixels (r : R1) (k : Int) (px : Option (Int × Int)) :
+    ∃ p, Impl.frontPixels r.totalPixels px (some k) = some p
+      ∧ (Impl.front1d r p = none ↔ (r.x1 - k < 0 ∨ k ≤ 0))
+      ∧ (∀ r', Impl.front1d r p = some r' → r'.x0 = r.x1 - k ∧ r'.x1 = r.x1) := by
+  refine ⟨(r.totalPixels - k, r.totalPixels), rfl, ?_⟩
+  unfold Impl.front1d R1.totalPixels
+  by_cases h : 0 ≤ r.x1 - k ∧ 0 < k
+  · rw [region1dNew_eq_some (by dsimp only; omega)]
+    refine ⟨by simp; omega, ?_⟩
+    intro r' h'
+    injection h' with h'; subst h'
+    dsimp only
+    omega
+  · rw [region1dNew_eq_none (by dsimp only; omega)]
+    exact ⟨by simp; omega, by simp⟩
+
+/-- (c8) 1-D trailing region: pixels `x1 + k`, `a ≤ k < b`. -/
+theorem trailing1d_pixels (r : R1) (a b : Int) :
+    (Impl.trailing1d r (a, b) = none ↔ (r.x1 + a < 0 ∨ b ≤ a))
+    ∧ (∀ r', Impl.trailing1d r (a, b) = some r' →
+        ∀ j : Int, (r'.x0 ≤ j ∧ j < r'.x1) ↔ ∃ k, a ≤ k ∧ k < b ∧ j = r.x1 + k) := by
+  unfold Impl.trailing1d
+  by_cases h : 0 ≤ r.x1 + a ∧ a < b
+  · rw [region1dNew_eq_some (by dsimp only; omega)]
+    refine ⟨by simp; omega, ?_⟩
+    intro r' h'
+    injection h' with h'; subst h'
+    refine fun i => ⟨fun hi => ⟨i - r.x1, ?_, ?_, ?_⟩, fun ⟨k, h1, h2, h3⟩ => ?_⟩ <;>
+      dsimp only at * <;> omega
+  · rw [region1dNew_eq_none (by dsimp only; omega)]
+    exact ⟨by simp; omega, by simp⟩
+
+/-! ### non-vacuity: concrete instances meeting every hypothesis above -/
+example :
+    let a : List (List Nat) := [[1, 2, 3, 4], [5, 6, 7, 8], [9, 10, 11, 12]]
+    let r : R2 := ⟨0, 2, 1, 4⟩
+    Spec.R2.Inside r 3 4
+    ∧ Impl.rotateRegion r 3 4 .c01 = some ⟨1, 3, 0, 3⟩
+    ∧ Impl.slice2d r a = [[2, 3, 4], [6, 7, 8]]
+    ∧ Impl.slice2d ⟨1, 3, 0, 3⟩ (Impl.rotateArray .c01 a) = [[8, 7, 6], [4, 3, 2]]
+    ∧ Impl.regionAfterExtraction r ⟨1, 3, 2, 3⟩ = .value ⟨0, 1, 0, 1⟩
+    ∧ Impl.regionAfterExtraction r ⟨2, 3, 0, 4⟩ = .absent
+    ∧ Impl.x0x1AfterExtraction 4 6 0 2 = none
+    ∧ Impl.parallelFront r (1, 2) = some ⟨1, 2, 1, 4⟩
+    ∧ Impl.parallelTrailing r (0, 1) = some ⟨2, 3, 1, 4⟩
+    ∧ Impl.serialFront r (2, 1) = none
+    ∧ Impl.region2dNew ⟨0, 2, -1, 4⟩ = none := by
+  refine ⟨by unfold Spec.R2.Inside; decide, ?_⟩
+  decide
 
 end C19
